@@ -20,7 +20,7 @@ FUNCTIONS = ['emd.cycles.get_cycle_vector', 'emd.support.ensure_2d (inlined)']
 ASSUMPTIONS = [
     'floats are mathematical reals; numpy ints unbounded',
     'assumed numpy contracts (cross-checked natively, not proved): where diff abs r_ zeros_like ones max slicing / slice assignment',
-    'phase values lie in [0, 2pi] (precondition: the re-wrapping branch of get_cycle_vector is outside this unit)',
+    'phase values lie in [0, 2pi] in the first unit and in the multi-column unit; the unit `any phase range` has no range precondition: emd.utils.wrap_phase is then a contract stub (same shape, values in [0, 2pi); its congruence is proved under C09) and the clauses are stated about the re-wrapped array',
     'unit `all-cycles`: single column (the per-column loop runs natively for one column), post in step form (label[s] = label[s-1] + [wrap at s]); unit `all-cycles,multi-column`: symbolic number of columns, both loops cut, post in boundary form over the np.where contract taken as a function of the column (register_pred_where: sorted, sound, complete list of the wrap positions of each column)',
     'is_good is replaced by its C13 contract at the call site (modular)',
 ]
